@@ -205,6 +205,17 @@ Stop ==
   /\ UNCHANGED <<cid, best, reqs, nfail, pq, nextB, h0, h, endH, newR, rq, itx>>
   /\ Finish(Act("Stop", 0, 0, 0, "ok"))
 
+\* A cv.Signal that finds the manager parked although the queue is empty:
+\* Enqueue signals AFTER it has released the lock (:202-203), so the signal of
+\* an earlier Enqueue can arrive after the manager has served that request
+\* and parked again.  The manager wakes, finds the queue empty and waits again
+\* (Wake below).  Observed on the real scanner in free-running executions.
+LateSignal ==
+  /\ pc = PC_IDLE /\ ~quit /\ Len(reqs) > 0
+  /\ pc' = PC_WAKE
+  /\ UNCHANGED <<cid, best, reqs, ans, quit, nfail, pq, nextB, h0, h, endH, newR, rq, itx>>
+  /\ Finish(Act("Signal", 0, 0, 0, "ok"))
+
 \* cv.Wait returns :226-237
 Wake ==
   /\ pc = PC_WAKE
@@ -296,6 +307,7 @@ Next ==
   \/ \E c \in 1..Len(Cat) : Enqueue(c)
   \/ NewBlock
   \/ Stop
+  \/ LateSignal
   \/ Wake
   \/ \E res \in {"ok", "fail"} : BatchStart(res)
   \/ \E res \in {"ok", "fail"} : GetHash(res)
